@@ -225,7 +225,21 @@ def check_C12(pid, tier, seed, t0):
         v.known_finding("D16 group %s: the generated type is built from the last occurrence of the name; %d listed occurrence(s) "
                         "with other members (%s%s) do not get their schema members" %
                         (g, len(owners), ", ".join(sorted(owners)[:3]), ", ..." if len(owners) > 3 else ""))
-    dres, dout = run_drivers(drive_dirs)
+    # compiling and driving a generated package costs seconds (the 400-type one about two minutes):
+    # every shipped schema's package, and of the derived ones as many as the tier affords
+    max_driven = 40 if tier == "quick" else 90
+    if len(drive_dirs) > max_driven:
+        shipped_dirs = [d for d in drive_dirs if "derived" not in os.path.basename(os.path.dirname(d))]
+        derived_dirs = [d for d in drive_dirs if d not in shipped_dirs]
+        step = max(1, len(derived_dirs) // max(1, max_driven - len(shipped_dirs)))
+        drive_dirs = shipped_dirs + derived_dirs[::step][:max_driven - len(shipped_dirs)]
+    try:
+        dres, dout = run_drivers(drive_dirs, timeout=2400)
+    except subprocess.TimeoutExpired:
+        dres, dout = {}, ""
+        v.violation({"property": pid, "kind": "harness",
+                     "what": "compiling and driving %d generated packages did not finish within 40 minutes" % len(drive_dirs)},
+                    no_input=True)
     for d, res in dres.items():
         if res != "ok":
             r = [x for x in allrecs if x.get("dir") == d][0]
